@@ -10,6 +10,7 @@ CONSTANTS
   TG = "t22b"
   LAYOUTS = {"dfs", "hole", "rev", "low"}
   EMIT = TRUE
+VIEW View
 INVARIANTS LawCompose IndicesKept ResultWellFormed
 ACTION_CONSTRAINT Emit
 CHECK_DEADLOCK FALSE
